@@ -347,3 +347,31 @@ def walk_under(fn_node, decide):
     for en in block(fn_node.body, {}):
         exits.append(("end", None, en))
     return evaluated, exits
+
+
+def path_value(stmts, upto, expr, atoms):
+    """Value expression that ``expr`` denotes at statement ``upto`` on the execution
+    whose simple statements are ``stmts`` (in order): local names are replaced by the
+    expression last assigned to them on *this* path, conditional expressions are
+    decided by the path's atoms."""
+    defs = {}
+    for st in stmts:
+        if st is upto:
+            break
+        if isinstance(st, ast.Assign) and len(st.targets) == 1 and isinstance(st.targets[0], ast.Name):
+            defs[st.targets[0].id] = st.value
+        elif isinstance(st, ast.AnnAssign) and isinstance(st.target, ast.Name) and st.value is not None:
+            defs[st.target.id] = st.value
+    v = expr
+    for _ in range(12):
+        if isinstance(v, ast.IfExp):
+            try:
+                v = v.body if evaluate(v.test, atoms) else v.orelse
+                continue
+            except KeyError:
+                break
+        if isinstance(v, ast.Name) and v.id in defs:
+            v = defs[v.id]
+            continue
+        break
+    return v
